@@ -395,12 +395,14 @@ func openSpoofer(class int, ip string, rtpPort, rtcpPort int) *spoofer {
 	a, err := bindUDP(ip, rtpPort)
 	if err != nil {
 		run.Count("spoofer-bind-failed:"+classNames[class], 1)
+		fmt.Fprintf(os.Stderr, "spoofer bind failed: %s %s:%d: %v\n", classNames[class], ip, rtpPort, err)
 		return nil
 	}
 	b, err := bindUDP(ip, rtcpPort)
 	if err != nil {
 		a.Close()
 		run.Count("spoofer-bind-failed:"+classNames[class], 1)
+		fmt.Fprintf(os.Stderr, "spoofer bind failed: %s %s:%d: %v\n", classNames[class], ip, rtcpPort, err)
 		return nil
 	}
 	return &spoofer{Class: class, IP: ip, rtp: a, rtcp: b}
@@ -493,13 +495,13 @@ func udpSockInfo(port int) (queued int, drops int) {
 	return total, drops
 }
 
-// pace blocks while the receive queue of a destination port holds more than 48 KiB, so that
+// pace blocks while the receive queue of a destination port holds more than 32 KiB, so that
 // floods are processed by the receiver instead of being dropped by the kernel.
 func pace(ports ...int) {
 	for i := 0; i < 2000; i++ {
 		busy := false
 		for _, p := range ports {
-			if udpQueued(p) > 48<<10 {
+			if udpQueued(p) > 32<<10 {
 				busy = true
 			}
 		}
